@@ -809,6 +809,59 @@ def current_node_name_beliefs(ctx):
         raise AnalysisError("C03.10: no innerHTML belief guarded by a current-node name test was found")
 
 
+def html_namespace_tests(ctx):
+    """C03.14: whether a node on the stack is an HTML element is decided by comparing its namespace with the tree builder's
+    defaultNamespace (None when namespaceHTMLElements=False), never with the constant XHTML namespace: with namespacing off
+    the constant matches no element, the foreign-content end-tag walk then runs past the root of the stack (IndexError) or
+    never hands the token to the HTML rules (non-termination).
+    C03.15: xml.dom raises NotFoundErr when asked to remove a node that is not a child; minidom's appendChild/insertBefore move
+    a node silently, so the wrapper-level parent can be stale -- the DOM back-end's removeChild tests the real parent first."""
+    r = ctx.r
+    n = 0
+    for f in ctx.repo.module(PARSER_REL).all_functions:
+        ns_locals = {s.targets[0].id for s in walk_no_nested(f.node) if isinstance(s, ast.Assign) and isinstance(s.targets[0], ast.Name)
+                     and isinstance(s.value, ast.IfExp) is False and "namespace" in norm(s.value) and not isinstance(s.value, ast.Call)}
+        ordinal = 0
+        for c in sorted((x for x in walk_no_nested(f.node) if isinstance(x, ast.Compare)), key=lambda x: (x.lineno, x.col_offset)):
+            if not (isinstance(c, ast.Compare) and len(c.ops) == 1 and isinstance(c.ops[0], (ast.Eq, ast.NotEq))):
+                continue
+            sides = [c.left, c.comparators[0]]
+            is_ns = [isinstance(s, ast.Attribute) and s.attr == "namespace" or (isinstance(s, ast.Name) and s.id in ns_locals and "amespace" in s.id)
+                     for s in sides]
+            if not any(is_ns):
+                continue
+            other = sides[1] if is_ns[0] else sides[0]
+            t = norm(other)
+            ordinal += 1
+            if t.endswith("defaultNamespace"):
+                n += 1
+                r.ok("C03.14", "html-test::%s#%d" % (f.qual, ordinal), "%s:%d" % (PARSER_REL, c.lineno), detail={"compares_with": t})
+            elif t in ("namespaces['html']",) or (isinstance(other, ast.Constant) and other.value == "http://www.w3.org/1999/xhtml"):
+                n += 1
+                r.bad("C03.14", "html-test::%s#%d" % (f.qual, ordinal), "%s:%d" % (PARSER_REL, c.lineno),
+                      "%s decides whether a node is an HTML element by comparing its namespace with the constant XHTML namespace; with "
+                      "namespaceHTMLElements=False HTML elements carry the tree's defaultNamespace (None), so the test never matches "
+                      "(<svg></br> raises IndexError, an end tag inside foreign content in a table cell never terminates)" % f.qual,
+                      {"function": f.qual})
+    if n < 5:
+        raise AnalysisError("C03.14: only %d HTML-namespace tests found in the parser" % n)
+    dom = ctx.repo.module("treebuilders/dom.py").find_class("getDomBuilder.NodeBuilder")
+    rm = dom.methods.get("removeChild") if dom else None
+    if rm is None:
+        raise AnalysisError("dom NodeBuilder.removeChild vanished")
+    cfg = CFG(rm.node)
+    raw = [x for x in cfg.stmt_nodes() if any(norm(c.func) == "self.element.removeChild" for c in node_calls(x))]
+    if not raw:
+        r.idiom("C03.15", False, "dom-removeChild-guarded", rm.where, "the xml.dom removeChild call was not found")
+    for x in raw:
+        guarded = cfg.dominated_by(x, lambda m, lab: m.kind == "test" and "parentNode" in norm(m.ast) and lab is True)
+        in_try = any(isinstance(t, ast.Try) and any(y is x.ast for y in ast.walk(t)) for t in ast.walk(rm.node))
+        r.check("C03.15", guarded or in_try, "dom-removeChild-guarded", "%s:%d" % ("treebuilders/dom.py", x.ast.lineno),
+                "the DOM back-end's removeChild asks xml.dom to remove the node without checking that it (still) is a child: after an "
+                "implicit move by appendChild/insertBefore (adoption agency, e.g. <b><div><p>x</b>y) xml.dom raises NotFoundErr",
+                detail={"guarded_by_parentNode_test": guarded})
+
+
 def none_argument(ctx):
     """C03.11: a value that a function can return as None (a None-initialised local returned inside a tuple) is not passed to a
     parameter that every implementation dereferences without a None test."""
@@ -1116,6 +1169,8 @@ def run(ctx):
     r.rule("C03.11", "a possibly-None return component is not passed to a parameter that is dereferenced unconditionally", floor=2)
     r.rule("C03.9", "a handler that hands the token back for reprocessing has changed the insertion mode / stack first", floor=40)
     r.rule("C03.12", "insertion-mode transitions are the standard's (handlers rely on the skeleton their mode implies: body element, frameset, table context)", floor=120)
+    r.rule("C03.14", "HTML-ness of a stack node is tested against tree.defaultNamespace, never the constant XHTML namespace", floor=5)
+    r.rule("C03.15", "the DOM back-end removes a child only after checking the real parent", floor=1)
     r.rule("C03.13", "int() of input text uses a power-of-two radix, a ValueError handler or a length guard", floor=1)
     r.rule("C03.6", "every phase has a concrete handler for every token kind and tag name", floor=100)
     constkey(ctx)
@@ -1131,6 +1186,7 @@ def run(ctx):
     from . import modes
     modes.run(ctx, "C03.12")
     bounded_int(ctx)
+    html_namespace_tests(ctx)
     dispatch_total(ctx)
     from . import c03_tok
     c03_tok.run(ctx)
